@@ -250,6 +250,9 @@ def shape_strategy():
             return 'with x as %s, y as (%s, %s): pass' % (a, b, c)
         if k == 4:
             return 'try: pass\nexcept%sE%sas%s%s: pass\nexcept (A, B) as %s: pass' % (draw(ws), draw(ws), draw(ws), a, b)
+        if draw(st.booleans()):
+            # annotated assignment whose target is parenthesised (also over several lines): the statement does not start at the name
+            return draw(st.sampled_from(['(%s): int = 1', '( %s ): int = 1', '(\n    %s\n): int = 2', '((%s)): str = ""'])) % a
         return '[%s for %s in x if (%s := %s)]; %s: int = 1' % (a, a, b, a, c)
 
     stmt = st.one_of(imp(), imp(), deff(), assign())
